@@ -5,6 +5,9 @@ open Chess.Props.C04
 #print axioms standard_hash
 #print axioms parse_hash
 #print axioms hash_ignores
+#print axioms move_hash
+#print axioms reachable_hash
+#print axioms eq_hash_reachable
 #print axioms Chess.Props.C04.distinctB_sound
 #print axioms Chess.Props.C04.keys_count
 #print axioms Chess.Props.C04.keys_distinctB
